@@ -13,6 +13,12 @@ names, enum members, late-bound calls of side-effect-free functions) against the
 (initialiser_sees_imports, initialiser_value_local, import_order_independent_layered for modules that read what
 they import).
 
+Front end (coq/C18/Front.v, Properties_C18_front.v): the dispatch of StatementParser::parseStatement over the KIND of a
+top-level item x the SPELLING of its type (built-in keyword, `unsigned`, typedef alias, struct / interface / union / enum name,
+generic instance, pointer, reference, array) and the three places where `export` is put on the node: export_flag_follows_keyword,
+exported_statement_was_written_exported, only_written_exports_visible, written_exports_become_visible.  Every generated module
+reaches the extracted loader model THROUGH the extracted front-end model (Front.parse_fs).
+
 Tie (every run): generated module trees are written into a scratch directory (nested directories, the
 program is run with cwd there; modules with imports initialise exports from the exports of the modules they import -
 directly, through a chain, through a diamond -, the program imports only the outer module, everything in every order,
@@ -27,6 +33,9 @@ or what is loaded anyway in addition) and
      permutation / duplication of the import list == re-import at run time (stdout, exit status);
      the import list is in general NOT closed under the modules' own imports.
   C. corpus/c18.json: the former refutation witnesses must print what the property demands.
+  D. kind x type-spelling matrix (KIND_CELLS, oracle only): every cell (an exported constant / global / function / type of
+     one kind and spelling) is imported directly and read through an exported function, == the single-file program, and
+     its hidden variant cannot be named; E. assignment probes: the model's verdict on `name = v;` for imported variables.
 """
 import hashlib
 import itertools
@@ -46,7 +55,8 @@ META = {
     "technique": "Coq proofs about a function-by-function Gallina model of the run-time module loader (visibility frame lemmas, "
                  "loaded_modules invariant, history invariant for import-time initialisers, commutation of registration steps with "
                  "read/write footprints lifted to permutations, completion-order normal form for modules that read what they import, "
-                 "simulation import = inlined) + extracted-model differential run against the real interpreter on generated module trees",
+                 "simulation import = inlined; case analysis of the parser's statement dispatch: the export keyword reaches the loader for "
+                 "every item kind and type spelling) + extracted-model differential run against the real interpreter on generated module trees",
     "text": "Machine-checked theorems about a Gallina model of Interpreter::handle_import_statement / "
             "sync_impl_definitions_from_parser / register_impl_definition as repaired (path resolution incl. the 8 search locations, "
             "export filter, recursive execution of a module's own imports where the import statement stands with the module marked "
@@ -61,24 +71,40 @@ META = {
             "not read each other's names, and also for modules that DO read what they import (acyclic imports, imports first, every "
             "non-commuting pair connected by an import statement: chains, diamonds with initialisers); an import equals pasting every "
             "loaded file once as local declarations on all unqualified names (initialisers included); the recursion bound of the model "
-            "is immaterial. One law is refuted on the faithful model (hidden impl blocks are visible; all of stdlib relies on it). The "
+            "is immaterial; on the TEXT of the module files (front-end model of StatementParser::parseStatement: declaration branch, "
+            "identifier-type branch, unsigned/built-in branch, one flag placement each): a function, single variable or constant, "
+            "typedef, struct, enum, interface or impl written with `export` reaches the loader as that definition with the flag set "
+            "whatever the spelling of its type (built-in, unsigned, typedef alias, struct/interface/union/enum name, generic instance, "
+            "pointer, reference, user-typed array), nothing reaches it as exported without the keyword, hence every changed binding "
+            "stems from an item written with `export` and every such item of every loaded module is bound. One law is refuted on the faithful model (hidden impl blocks are visible; all of stdlib relies on it). The "
             "model is tied to the code on every run: all import DAGs over <=3 (quick) / <=5 (thorough) generated modules plus 4-module "
             "chains/diamonds in nested directories, exports initialised from the exports of imported modules (directly, through a "
-            "chain, through calls), import lists not closed under the modules' own imports, every permutation, duplications and "
+            "chain, through calls), import CYCLES (two modules importing each other, 3-cycle, self-import, cycle entered from a "
+            "diamond), import lists not closed under the modules' own imports, every permutation, duplications and "
             "supersets by modules loaded anyway, run on the real binary; the model's predicted bindings AND VALUES are checked name by "
             "name (positive uses + one undefined-name probe per unbound name) and the importing program is compared with its inlined "
             "single-file form and all permuted/duplicated variants; modules importing each other with clashing names; selective imports; "
-            "former defect witnesses are kept as corpus.",
+            "exported constants / globals / pure functions whose types are spelled long, short, unsigned, double, float, typedef "
+            "alias (exported or hidden, chains, of string/long, of an imported module), enum, `export default`, exported and hidden, "
+            "read by initialisers and functions of the module; a matrix of ~80 kind x spelling cells (pointers, references, arrays, "
+            "structs, generics, interfaces, async, unions) compared import == single file with the hidden variant unusable; "
+            "assignment probes for imported constants/globals; former defect witnesses are kept as corpus. Two front-end laws are "
+            "refuted (array declarations with a built-in element type and multi-variable declarations never receive the flag).",
     "note": "Trusted: Coq kernel (vm_compute for the refutation witness/examples), no axioms (Print Assumptions: closed); extraction via "
-            "ExtrOcamlBasic+ExtrOcamlString; the model is hand-written and tied by differential testing only. NOT modelled: the "
-            "parse-time path RecursiveParser::processImport/resolveModulePath (only its hand-over of transitive impl blocks), ownership "
+            "ExtrOcamlBasic+ExtrOcamlString; the model is hand-written and tied by differential testing only. The front-end "
+            "model (Front.v) is hand-written from the dispatch and flag placement of parseStatement / parseTypedefTypeStatement / "
+            "parseBasicTypeStatement (node kind and flag only: initialiser and body parsing are not modelled), tied by the same runs. NOT modelled: the "
+            "parse-time path RecursiveParser::processImport/resolveModulePath (only its hand-over of transitive impl blocks and - as an "
+            "abstract environment - of type names), the SHAPE of an imported variable beyond its value (struct / array / unsigned: "
+            "known findings), ownership "
             "transfer of impl nodes, module aliases, generic-name mangling, side effects of functions called from initialisers (the "
             "model's functions are expressions; a call's candidate bodies are the declarations of that name in the file system). "
             "Selective imports reach the model by translation of the file system. imported_like_inlined is a table-level statement; "
             "behavioural equality (statics included) is tested (oracle B), not proved; where the single-file program itself is "
             "defective (calls / non-const reads in file-scope initialisers: two known findings) the inlined comparison is skipped. "
-            "import_order_independent* are stated for two successful loads (error symmetry is not proved). Cyclic imports are outside "
-            "the model's correspondence (parse-time failure).",
+            "import_order_independent* are stated for two successful loads (error symmetry is not proved). Import cycles (fix 129a992) "
+            "are inside the correspondence (cycle family: the model marks a module loaded before it runs its imports); modules on a "
+            "cycle hold no impl block (known finding C18-import-cycle-with-impl-block).",
 }
 
 # ------------------------------------------------------------------ abstract cases
@@ -93,6 +119,10 @@ META = {
 #                                       term{+term}, term = INT | a | $name | #Enum:Member | @f(expr)
 #  ("H", e, name, body, expr)           side-effect-free function `int name(int a) { return <expr>; }`
 #  ("E", e, name, [(member, value)])
+#  ("PV", e, name, const, init, spell, cls, default)   a variable / constant whose TYPE IS SPELLED: spell in the model syntax
+#                                       ([u.]keyword | Name[<a;b>] {*}[&]{[n]}), cls = num | str | dbl (how the value is written
+#                                       and printed: n, "s<n>", n.5); init as for "V"; default: `export default`
+#  ("PF", e, name, body, expr, retspell, paramspell, default)   side-effect-free function `<ret> name(<param> a) { return <expr>; }`
 
 
 def expr_terms(text):
@@ -133,11 +163,42 @@ def expr_names(text, sigil):
     return re.findall(re.escape(sigil) + r"([A-Za-z0-9_.]+)", text)
 
 
+def spell_cb(sp):
+    """type spelling, model syntax -> Cb source"""
+    if sp.startswith("u."):
+        sp = "unsigned " + sp[2:]
+    return sp.replace(";", ", ")
+
+
+def is_var(s):
+    return s[0] in ("V", "PV")
+
+
+def var_cls(s):
+    """how the value of a variable statement is written / printed: num, str ("s<n>") or dbl (n.5)"""
+    if s[0] == "PV":
+        return s[6]
+    return "str" if (len(s) > 5 and s[5] == "string") else "num"
+
+
+def is_pure(s):
+    return s[0] in ("H", "PF")
+
+
+def fmt_value(cls, v):
+    return {"num": "%d", "str": "s%d", "dbl": "%d.5"}[cls] % v
+
+
 def model_stmt(s):
     k = s[0]
     if k == "I":
         return "I %s" % s[1]
     e = "1" if s[1] else "0"
+    if k == "PV":
+        init = "" if s[4] is None else "=%s" % s[4]
+        return "PV %s %d 0 %d %s %s%s" % (e, 1 if s[7] else 0, 1 if s[3] else 0, s[5], s[2], init)
+    if k == "PF":
+        return "PF %s %d 0 %s %s %d - %s %s" % (e, 1 if s[7] else 0, s[5], s[2], s[3], s[6], s[4])
     if k == "F":
         return "F %s %s %d" % (e, s[2], s[3])
     if k == "H":
@@ -164,6 +225,18 @@ def render_stmt(s, keep_export=True):
     if k == "I":
         return "import %s;" % s[1]
     ex = "export " if (s[1] and keep_export) else ""
+    if k in ("PV", "PF") and s[7] and ex:
+        ex = "export default "
+    if k == "PV":
+        if s[4] is None:
+            init = ""
+        elif s[6] == "num":
+            init = " = %s" % (s[4] if isinstance(s[4], int) else expr_to_cb(s[4], inline=not keep_export))
+        else:
+            init = " = %s" % ('"s%d"' % s[4] if s[6] == "str" else "%d.5" % s[4])
+        return "%s%s%s %s%s;" % (ex, "const " if s[3] else "", spell_cb(s[5]), s[2], init)
+    if k == "PF":
+        return "%s%s %s(%s a) { return %s; }" % (ex, spell_cb(s[5]), s[2], spell_cb(s[6]), expr_to_cb(s[4], inline=not keep_export))
     if k == "H":
         return "%sint %s(int a) { return %s; }" % (ex, s[2], expr_to_cb(s[4], inline=not keep_export))
     if k == "F":
@@ -206,6 +279,9 @@ def render_stmt(s, keep_export=True):
 
 def file_path(modpath):
     return modpath.replace(".", "/") + ".cb"
+
+
+BUILTIN_NUM = ["long", "short", "u.int", "u.long", "u.short", "long", "u.int"]     # numeric spellings other than `int`
 
 
 DIRS = ["", "pk", "pk.sub", "lib", "lib.x.y", "d1", "d1.d2", "zz.cx", "cbx", "lib.cbits"]
@@ -253,8 +329,22 @@ def gen_modules(rng, n, edges, defects=(), prefix=""):
                 pool_h += exported[j]["h"]
         own_val, own_fun, own_str = [], [], []
         own_c, own_g, own_h = [], [], []
+        # type spellings a declaration of this module may use: built-in numeric spellings, typedef aliases / enums declared
+        # EARLIER in this file (exported or hidden: the module's parser resolves them), and - when the parse-time import sees
+        # the imported files - exported numeric typedef aliases / enums of the directly imported modules
+        own_td = []                      # (name, cls) of own typedefs, in declaration order
+        spell_num = list(BUILTIN_NUM)
+        spell_str, spell_enum = [], []   # str-class aliases; (enum name, member, value)
+        if not prefix:
+            for j in direct:
+                spell_num += exported[j]["td_num"]
+                spell_enum += exported[j]["enums"]
+        exp_td_num, exp_enums = [], []
         nitems = rng.randint(2, 5)
-        kinds = [rng.choice("FFFPSSEKVTGCCWHZ") for _ in range(nitems)]
+        kinds = [rng.choice("FFFPSSEEKVTGCCWHZTYYYXX") for _ in range(nitems)]
+        if rng.random() < 0.5:
+            # a typedef alias / an enum and a constant / global (or a function) spelled with a user-defined type
+            kinds += [rng.choice("TTE"), rng.choice("YYYX")]
         if i == 0 and "V" not in kinds:
             kinds.append("V")
         if i == 0 and not ({"K", "C", "E"} & set(kinds)):
@@ -292,6 +382,49 @@ def gen_modules(rng, n, edges, defects=(), prefix=""):
                 return out
             if kd == "P" and not (pool_str + own_str):
                 kd = "F"
+            if kd == "Y":
+                # a constant / global whose type is spelled otherwise than `int`: another parser branch per spelling
+                # (parseTypedefTypeStatement for identifiers, the `unsigned` path, parseBasicTypeStatement) and another
+                # value field on import (value / str_value / double_value)
+                nm = "y%d_%d" % (i, j)
+                is_c = rng.random() < 0.6
+                dflt = e and rng.random() < 0.08
+                r = rng.random()
+                if r < 0.12:
+                    stmts.append(("PV", e, nm, is_c, ident + 1, rng.choice(["double", "float"]), "dbl", dflt))
+                elif r < 0.24 and spell_str:
+                    stmts.append(("PV", e, nm, is_c, ident + 1, rng.choice(spell_str), "str", dflt))
+                elif r < 0.45 and spell_enum:
+                    en, mem_, val_ = rng.choice(spell_enum)
+                    stmts.append(("PV", e, nm, is_c, "#%s:%s" % (en, mem_), en, "num", dflt))
+                    if e:
+                        (own_c if is_c else own_g).append("$" + nm)
+                        own_val.append(nm)
+                else:
+                    user_num = [x for x in spell_num if x not in BUILTIN_NUM]
+                    sp_ = rng.choice(user_num) if (user_num and rng.random() < 0.6) else rng.choice(spell_num)
+                    if e:
+                        ts = terms(pool_c + own_c, (pool_g + own_g) if (not is_c or rng.random() < 0.15) else [],
+                                   (pool_h + own_h) if rng.random() < 0.3 else [], 2)
+                        init = "+".join([str(ident + 1)] + ts) if (ts or rng.random() < 0.5) else ident + 1
+                    else:
+                        init = (ident + 1) if (is_c or rng.random() < 0.85) else None
+                    stmts.append(("PV", e, nm, is_c, init, sp_, "num", dflt))
+                    if e:
+                        (own_c if is_c else own_g).append("$" + nm)
+                        own_val.append(nm)
+                continue
+            if kd == "X":
+                # a side-effect-free function whose return and parameter types are spelled with user-defined / unsigned /
+                # long / short types (the function branch of parseTypedefTypeStatement / the `unsigned` path)
+                nm = "x%d_%d" % (i, j)
+                ts = terms(pool_c + own_c, pool_g + own_g, pool_h + own_h, 2, "a") if e else []
+                user_num = [x for x in spell_num if x not in BUILTIN_NUM] + [x[0] for x in spell_enum]
+                pick = lambda: rng.choice(user_num) if (user_num and rng.random() < 0.6) else rng.choice(spell_num)
+                stmts.append(("PF", e, nm, ident, "+".join(["a", str(ident)] + ts), pick(), pick(), e and rng.random() < 0.08))
+                if e:
+                    own_h.append(nm)
+                continue
             if kd == "Z":
                 # a string constant / global (its own copy path in handle_import_statement: str_value); the model carries
                 # the number, the text is "s<number>"
@@ -353,8 +486,25 @@ def gen_modules(rng, n, edges, defects=(), prefix=""):
                 if e:
                     own_val.append("%s::EB" % nm)
                     own_c.append("#%s:EB" % nm)
+                    spell_enum.append((nm, "EB", ident + 4))      # (a hidden enum's members are not there when the importer
+                    exp_enums.append((nm, "EB", ident + 4))       #  evaluates the initialiser: exported enums only)
             elif kd == "T":
-                stmts.append(("T", e, "T%d_%d" % (i, j), "int"))
+                # typedef alias of a built-in type or of an earlier alias of this file (chains; hidden links)
+                nm = "T%d_%d" % (i, j)
+                r = rng.random()
+                if own_td and r < 0.35:
+                    tgt, cls_ = rng.choice(own_td)
+                elif r < 0.5:
+                    tgt, cls_ = "string", "str"
+                elif r < 0.62:
+                    tgt, cls_ = "long", "num"
+                else:
+                    tgt, cls_ = "int", "num"
+                stmts.append(("T", e, nm, tgt))
+                own_td.append((nm, cls_))
+                (spell_num if cls_ == "num" else spell_str).append(nm)
+                if e and cls_ == "num":
+                    exp_td_num.append(nm)
             elif kd == "G":
                 stmts.append(("S", e, "B%d_%d" % (i, j), True, [("x", None)]))
             elif kd == "S":
@@ -382,7 +532,7 @@ def gen_modules(rng, n, edges, defects=(), prefix=""):
                     dtor = ident + 8 if rng.random() < 0.5 else None
                     stmts.append(("M", impl_e, None, sn, [], ctors, dtor, []))
         exported[i] = {"val": own_val, "fun": own_fun, "str": own_str, "c": own_c, "g": own_g, "h": own_h,
-                       "reach": direct + reach}
+                       "reach": direct + reach, "td_num": exp_td_num, "enums": exp_enums}
         mods.append({"modpath": modpath, "path": prefix + file_path(modpath), "stmts": stmts,
                      "imports": sorted(set(j for j in range(i) if (i, j) in edges))})
     return mods
@@ -421,7 +571,7 @@ def parse_model(lines):
         w = l.split(" ")
         if w[0] == "R":
             cur = {"ok": w[1] == "ok", "err": w[2:] if w[1] != "ok" else None, "F": {}, "S": {}, "N": {}, "T": {}, "V": {},
-                   "E": {}, "D": {}, "C": {}, "IM": [], "ST": [], "L": [], "H": {}}
+                   "E": {}, "D": {}, "C": {}, "IM": [], "ST": [], "L": [], "H": {}, "A": {}}
         elif w[0] == "END":
             res.append(cur)
             cur = None
@@ -439,6 +589,8 @@ def parse_model(lines):
             cur["E"][w[1]] = [(m.split(":")[0], int(m.split(":")[1])) for m in w[2].split(",")] if len(w) > 2 else []
         elif w[0] == "H":
             cur["H"][w[1]] = None if w[2] == "!" else int(w[2])
+        elif w[0] == "A":
+            cur["A"][w[1]] = (w[2] == "accepted")
         elif w[0] == "D":
             cur["D"][w[1]] = int(w[2])
         elif w[0] == "C":
@@ -476,7 +628,7 @@ def is_mangled(k, tab):
     return False
 
 
-def build_main(tab, single_seg_mods, reimport=None, blind=False, fparams=None, parse_visible=None, strvars=()):
+def build_main(tab, single_seg_mods, reimport=None, blind=False, fparams=None, parse_visible=None, strvars=(), classes=None):
     # parse_visible: type names the parser of the running file knows (exports of the modules it imports itself);
     # generic structs and interface-typed variables can only be written with those (None = all)
     """main() that uses every name the model says is bound; returns (text, expectations) where
@@ -494,15 +646,18 @@ def build_main(tab, single_seg_mods, reimport=None, blind=False, fparams=None, p
         if "." in k and k.rsplit(".", 1)[0] not in single_seg_mods:
             continue
         # the value the model computed for the initialiser (an uninitialised global reads 0)
-        block(['println("@v", %s);' % k], ("@v s%d" if k.rsplit(".", 1)[-1] in strvars else "@v %d") % (v if v is not None else 0),
-              None, "variable " + k)
+        cls = (classes or {}).get(k.rsplit(".", 1)[-1], "str" if k.rsplit(".", 1)[-1] in strvars else "num")
+        block(['println("@v", %s);' % k], "@v " + fmt_value(cls, v if v is not None else 0), None, "variable " + k)
     for k in sorted(tab["E"]):
         if tab["E"][k]:
             m, v = tab["E"][k][-1]
             block(['println("@e", %s::%s);' % (k, m)], "@e %d" % v, None, "enum " + k)
     for n, k in enumerate(sorted(tab["T"])):
-        if tab["T"][k] == "int":
+        tcls = (classes or {}).get("typedef:" + k, "num" if tab["T"][k] == "int" else None)
+        if tcls == "num":
             block(["%s tv%d = 5; println(\"@t\", tv%d + 1);" % (k, n, n)], "@t 6", None, "typedef " + k)
+        elif tcls == "str":
+            block(["%s tv%d = \"q%d\"; println(\"@t\", tv%d);" % (k, n, n, n)], "@t q%d" % n, None, "typedef " + k)
     for k in sorted(tab["H"]):
         if "." in k and k.rsplit(".", 1)[0] not in single_seg_mods:
             continue
@@ -623,14 +778,14 @@ def negative_probes(all_files, tab, single_seg_mods):
     for path, stmts in all_files:
         for s in stmts:
             k = s[0]
-            if k in ("F", "H") and s[2] not in tab["F"]:
+            if k in ("F", "H", "PF") and s[2] not in tab["F"]:
                 out.append(("function " + s[2], 'println(%s(1));' % s[2]))
-            elif k == "V" and s[2] not in tab["V"]:
+            elif k in ("V", "PV") and s[2] not in tab["V"]:
                 out.append(("variable " + s[2], 'println(%s);' % s[2]))
             elif k == "E" and s[2] not in tab["E"]:
                 out.append(("enum " + s[2], 'println(%s::%s);' % (s[2], s[3][0][0])))
             elif k == "T" and s[2] not in tab["T"]:
-                out.append(("typedef " + s[2], '%s t = 3; println(t);' % s[2]))
+                out.append(("typedef " + s[2], '%s t; println(t);' % s[2]))
             elif k == "S" and s[2] not in tab["S"]:
                 if s[3]:
                     out.append(("generic struct " + s[2], '%s<int> h; h.x = 1; println(h.x);' % s[2]))
@@ -651,9 +806,41 @@ def negative_probes(all_files, tab, single_seg_mods):
         if "/" in mod or mod not in single_seg_mods:
             continue
         for s in stmts:
-            if s[0] in ("F", "H") and ("%s.%s" % (mod, s[2])) not in tab["F"]:
+            if s[0] in ("F", "H", "PF") and ("%s.%s" % (mod, s[2])) not in tab["F"]:
                 out.append(("qualified function %s.%s" % (mod, s[2]), 'println(%s.%s(1));' % (mod, s[2])))
     return out
+
+
+def assignment_probes(tab, classes, rng, k=3):
+    """the model's verdict on `name = <value>;` by the importer (Model.assign: an imported constant - whatever the spelling
+    of its type and the parser branch that made the node - rejects it, a global accepts it): up to k unqualified bound
+    variables, spelled ones first"""
+    names = sorted(n for n in tab["A"] if "." not in n and n in tab["V"] and not n.endswith("_main"))   # (not the importer's own)
+    rng.shuffle(names)
+    names.sort(key=lambda n: 0 if n.startswith("y") or n.startswith("K") else 1)
+    out = []
+    for n in names[:k]:
+        cls = (classes or {}).get(n, "num")
+        val = {"num": "1", "str": '"w"', "dbl": "1.5"}[cls]
+        out.append((n, tab["A"][n], '%s = %s; println("after");' % (n, val)))
+    return out
+
+
+def run_assignment_probes(tree, impl, head, probes):
+    """-> (runs, failures as (name, payload, text, concrete))"""
+    fails = []
+    for n, accepted, stmt in probes:
+        rc, o, e = tree.run(impl, head + 'void main() { println("start"); %s }\n' % stmt)
+        if accepted:
+            ok = (rc == 0 and o == "start\nafter\n")
+        else:
+            ok = (rc == 1 and o.strip() == "start" and "const" in e.lower())
+        if not ok:
+            fails.append(("corr-assign", {"variable": n, "model_accepts": accepted, "stmt": stmt, "rc": rc, "stdout": o[-200:], "stderr": e[-300:]},
+                          "assignment to imported %s: the model says %s, implementation: rc=%d %r %s" % (
+                              n, "accepted" if accepted else "rejected (constant)", rc, o[-40:], first_err(e)),
+                          o.startswith("start") and not accepted))      # a constant that can be assigned: concrete
+    return len(probes), fails
 
 
 # ------------------------------------------------------------------ running the implementation
@@ -705,6 +892,17 @@ def model_error_text(err):
 
 
 # ------------------------------------------------------------------ one graph case (A + B)
+def typedef_classes(mods):
+    """typedef alias -> num | str, resolved through the chains of each file (harness knowledge: how to USE the alias)"""
+    out = {}
+    for m in mods:
+        for st in m["stmts"]:
+            if st[0] == "T":
+                t = st[3]
+                out[st[2]] = "str" if t == "string" else ("num" if t in ("int", "long", "short") else out.get(t))
+    return out
+
+
 def make_graph_case(seed, tag, k, n, edges, defects=(), prefix=""):
     rng = rng_for(seed, "c18-graph", tag, k)
     mods = gen_modules(rng, n, edges, defects, prefix)
@@ -720,17 +918,99 @@ def make_graph_case(seed, tag, k, n, edges, defects=(), prefix=""):
     local = []
     # a local function of the importer that calls an imported exported function / reads a constant
     vis_f = [s[2] for i in closure(mods, imports_idx) for s in mods[i]["stmts"] if s[0] == "F" and s[1] and len(s) <= 5]
-    vis_v = [s[2] for i in closure(mods, imports_idx) for s in mods[i]["stmts"] if s[0] == "V" and s[1] and s[4] is not None and len(s) <= 5]
+    vis_v = [s[2] for i in closure(mods, imports_idx) for s in mods[i]["stmts"] if is_var(s) and s[1] and s[4] is not None and var_cls(s) == "num"]
     if vis_f or vis_v:
         refs = ([rng.choice(vis_f) + "(a)"] if vis_f else []) + ([rng.choice(vis_v)] if vis_v else [])
         local.append(("F", False, "lf_main", 990, refs))
     if rng.random() < 0.5:
         # a constant of the importer itself, initialised from imported constants (evaluated after all imports)
-        vis_c = [s[2] for i in closure(mods, imports_idx) for s in mods[i]["stmts"] if s[0] == "V" and s[1] and s[3] and s[4] is not None and len(s) <= 5]
+        vis_c = [s[2] for i in closure(mods, imports_idx) for s in mods[i]["stmts"] if is_var(s) and s[1] and s[3] and s[4] is not None and var_cls(s) == "num"]
         init = 991 if (not vis_c or rng.random() < 0.4) else "991+" + "+".join("$" + rng.choice(vis_c) for _ in range(rng.randint(1, 2)))
-        local.append(("V", False, "lk_main", True, init))
+        # ... sometimes spelled with a typedef alias that only the import makes known (the importer's parser has never
+        # seen it: typedefs are not handed over at parse time; resolved when the declaration is executed)
+        vis_t = [] if prefix else [s[2] for i in closure(mods, imports_idx) for s in mods[i]["stmts"]
+                                   if s[0] == "T" and s[1] and typedef_classes(mods).get(s[2]) == "num"]
+        if vis_t and rng.random() < 0.5:
+            local.append(("PV", False, "lk_main", True, init, rng.choice(vis_t), "num", False))
+        else:
+            local.append(("V", False, "lk_main", True, init))
     case = {"kind": "graph", "mods": mods, "base": base, "local": local, "defects": list(defects), "prefix": prefix,
             "n": n, "edges": sorted(edges), "seed_tag": [tag, k]}
+    case["no_inline"] = no_inline_reasons(case)
+    return case
+
+
+CYCLE_SHAPES = {
+    # name: (number of modules, {module: [modules it imports]}, the outermost module, the modules ON a cycle)
+    "two": (2, {0: [1], 1: [0]}, 0, {0, 1}),
+    "three": (3, {0: [1], 1: [2], 2: [0]}, 0, {0, 1, 2}),
+    "self": (2, {0: [0], 1: [0]}, 1, {0}),
+    "self-alone": (1, {0: [0]}, 0, {0}),
+    "diamond-into-cycle": (5, {0: [1], 1: [0], 2: [0], 3: [1], 4: [2, 3]}, 4, {0, 1}),
+    "two-plus-tail": (3, {0: [1, 2], 1: [0], 2: []}, 0, {0, 1}),
+}
+
+
+def make_cycle_case(seed, shape, k):
+    """import CYCLES (fix 129a992: the parse-time import skips a module that is being parsed further up the chain; the run-time
+    loader marks a module loaded before it runs its imports): two modules importing each other, a 3-cycle, a module importing
+    itself, a cycle entered from a diamond.  Every module exports a leaf function, a function that calls the leaf functions of
+    the modules it imports (late-bound: no call cycle), side-effect-free functions reading its constants and calling the other
+    modules' pure leaf functions, constants / globals with literal initialisers (spelled with an own alias now and then), types.
+    No initialiser reads across the cycle (which module of a cycle is completed first depends on where the cycle is entered)."""
+    rng = rng_for(seed, "c18-cycle", shape, k)
+    n, imps, outer, on_cycle = CYCLE_SHAPES[shape]
+    prefix = BLIND if k % 4 == 3 else ""
+    dirs = [rng.choice(DIRS) for _ in range(n)]
+    modpaths = [(dirs[i] + "." if dirs[i] else "") + "c%d" % i for i in range(n)]
+    mods = []
+    for i in range(n):
+        ident = 100 * (i + 1)
+        groups = [[("F", True, "f%d_0" % i, ident, [])],
+                  [("F", True, "f%d_1" % i, ident + 10, ["f%d_0(a)" % j for j in imps[i] if j != i])],
+                  [("V", True, "K%d_2" % i, True, ident + 21)],
+                  [("H", True, "h%d_3" % i, ident + 30, "a+%d+$K%d_2" % (ident + 30, i))],
+                  [("H", True, "h%d_4" % i, ident + 40, "+".join(["a", str(ident + 40)] + ["@h%d_3(a)" % j for j in imps[i] if j != i]))],
+                  [("V", True, "g%d_5" % i, False, ident + 52)],
+                  [("F", False, "f%d_6" % i, ident + 60, [])],
+                  [("V", False, "K%d_7" % i, True, ident + 71)]]
+        if rng.random() < 0.6:
+            groups.append([("T", rng.random() < 0.7, "T%d_8" % i, "int"),
+                           ("PV", True, "y%d_9" % i, rng.random() < 0.6, ident + 91, "T%d_8" % i, "num", False)])
+        if rng.random() < 0.5:
+            groups.append([("E", True, "E%d_10" % i, [("EA", ident + 103), ("EB", ident + 104)])])
+        if rng.random() < 0.5:
+            sn = "S%d_11" % i
+            g = [("S", True, sn, False, [("x", None), ("y", None)])]
+            # (known finding C18-import-cycle-with-impl-block: a module ON a cycle must not hold an impl block)
+            if i not in on_cycle and rng.random() < 0.7:
+                g.append(("N", True, "I%d_11" % i, ["m%d_11" % i]))
+                g.append(("M", True, "I%d_11" % i, sn, [("m%d_11" % i, ident + 115, [])], [], None, []))
+            if i not in on_cycle and rng.random() < 0.5:
+                g.append(("M", True, None, sn, [], [(1, ident + 116)], ident + 118 if rng.random() < 0.5 else None, []))
+            groups.append(g)
+        rng.shuffle(groups)                           # (a type before what is spelled with it / implements it)
+        # the import statements stand at the top or anywhere among the declarations
+        stmts = [st for g in groups for st in g]
+        for j in imps[i]:
+            pos = 0 if rng.random() < 0.6 else rng.randint(0, len(stmts))
+            stmts.insert(pos, ("I", modpaths[j]))
+        mods.append({"modpath": modpaths[i], "path": prefix + file_path(modpaths[i]), "stmts": stmts, "imports": sorted(set(imps[i]))})
+    r = rng.random()
+    if r < 0.35:
+        base = [outer]
+    elif r < 0.6:
+        base = [rng.randrange(n)]                     # the cycle is entered at any of its modules
+    else:
+        base = [i for i in range(n) if rng.random() < 0.6] or [outer]
+    rng.shuffle(base)
+    local = []
+    loaded = closure(mods, sorted(set(base)))
+    if rng.random() < 0.6:
+        i = rng.choice(loaded)
+        local.append(("F", False, "lf_main", 990, ["f%d_1(a)" % i, "K%d_2" % i]))
+    case = {"kind": "graph", "mods": mods, "base": base, "local": local, "defects": [], "prefix": prefix,
+            "n": n, "edges": sorted((i, j) for i in imps for j in imps[i]), "seed_tag": ["cycle-" + shape, k], "cycle": shape}
     case["no_inline"] = no_inline_reasons(case)
     return case
 
@@ -740,11 +1020,11 @@ def no_inline_reasons(case):
     program loads: there the single-file (inlined) program is not a reference - it fails where the import works"""
     mods = case["mods"]
     loaded = closure(mods, sorted(set(case["base"])))
-    nonconst = set(s[2] for m in mods for s in m["stmts"] if s[0] == "V" and not s[3])
+    nonconst = set(s[2] for m in mods for s in m["stmts"] if is_var(s) and not s[3])
     why = set()
     for i in loaded:
         for s in mods[i]["stmts"]:
-            if s[0] == "V" and isinstance(s[4], str):
+            if is_var(s) and isinstance(s[4], str):
                 if "@" in s[4]:
                     why.add("call-in-initialiser")
                 if s[3] and any(x.rsplit(".", 1)[-1] in nonconst for x in expr_names(s[4], "$")):
@@ -823,7 +1103,7 @@ def run_graph_case(impl, case, tab, tier, seed, oracle=True):
         reimp = None
         for i in case["base"]:
             for s in mods[i]["stmts"]:
-                if s[0] == "V" and s[1] and not s[3] and s[2] in tab["V"] and len(s) <= 5:
+                if is_var(s) and s[1] and not s[3] and s[2] in tab["V"] and var_cls(s) == "num":
                     reimp = (s[2], modpaths[i])
                     break
             if reimp:
@@ -832,8 +1112,11 @@ def run_graph_case(impl, case, tab, tier, seed, oracle=True):
         fparams = {st[2]: st[5] for m in mods for st in m["stmts"] if st[0] == "F" and len(st) > 5 and st[5]}
         pv = set(st[2] for i in set(case["base"]) for st in mods[i]["stmts"] if st[0] in ("S", "N") and st[1])
         strvars = set(st[2] for m in mods for st in m["stmts"] if st[0] == "V" and len(st) > 5 and st[5] == "string")
-        main_text, exp = build_main(tab, single, reimport=(reimp + (True,)) if reimp else None, blind=blind, fparams=fparams, parse_visible=pv, strvars=strvars)
-        main_inl, _ = build_main(tab, set(), reimport=(reimp + (False,)) if reimp else None, blind=blind, fparams=fparams, parse_visible=pv, strvars=strvars)
+        classes = {st[2]: var_cls(st) for m in mods for st in m["stmts"] if is_var(st)}
+        classes.update({st[2]: var_cls(st) for st in case["local"] if is_var(st)})
+        classes.update({"typedef:" + k_: v_ for k_, v_ in typedef_classes(mods).items()})
+        main_text, exp = build_main(tab, single, reimport=(reimp + (True,)) if reimp else None, blind=blind, fparams=fparams, parse_visible=pv, strvars=strvars, classes=classes)
+        main_inl, _ = build_main(tab, set(), reimport=(reimp + (False,)) if reimp else None, blind=blind, fparams=fparams, parse_visible=pv, strvars=strvars, classes=classes)
         rng = rng_for(seed, "c18-variants", *case["seed_tag"])
         vs = variants_of(case, rng, tier)
         outs = []
@@ -845,7 +1128,7 @@ def run_graph_case(impl, case, tab, tier, seed, oracle=True):
         # the same imports executed as statements at the beginning of main (Interpreter::execute_statement ->
         # handle_import_statement): possible when no declaration of the importer is initialised from an import
         late = None
-        if not any(st[0] == "V" and isinstance(st[4], str) for st in case["local"]):
+        if not any(is_var(st) and (isinstance(st[4], str) or st[0] == "PV") for st in case["local"]):
             late_main = main_text.replace("void main() {\n", "void main() {\n" + "".join("  import %s;\n" % modpaths[i] for i in imps0), 1)
             rcl, ol, el = tree.run(impl, program_text([], modpaths, case["local"], late_main))
             runs += 1
@@ -893,6 +1176,11 @@ def run_graph_case(impl, case, tab, tier, seed, oracle=True):
                               if o.startswith("start") else
                               ("probe program for %s did not reach main: rc=%d %s" % (what, rc, first_err(e))),
                               o.startswith("start")))   # concrete: something not exported/imported can be named
+        if rc0 == 0:
+            n_, fl_ = run_assignment_probes(tree, impl, "".join("import %s;\n" % modpaths[i] for i in imps0),
+                                            assignment_probes(tab, classes, rng_for(0, "c18-assign", *case["seed_tag"])))   # (per case, not per run: replayable)
+            runs += n_
+            fails += fl_
         nvar = 0
         if oracle and rc0 == 0:
             # B. oracle: every variant and the inlined program behave like the base program.
@@ -918,7 +1206,7 @@ def run_graph_case(impl, case, tab, tier, seed, oracle=True):
             # inlined form needs the same bindings minus qualified names: rebuild the base run without them
             if not no_inline:
                 if single:
-                    main_nq, _ = build_main(tab, set(), reimport=(reimp + (True,)) if reimp else None, blind=blind, fparams=fparams, parse_visible=pv, strvars=strvars)
+                    main_nq, _ = build_main(tab, set(), reimport=(reimp + (True,)) if reimp else None, blind=blind, fparams=fparams, parse_visible=pv, strvars=strvars, classes=classes)
                     rcq, oq, eq = tree.run(impl, program_text(imps0, modpaths, case["local"], main_nq))
                     runs += 1
                 else:
@@ -935,6 +1223,19 @@ def run_graph_case(impl, case, tab, tier, seed, oracle=True):
         for f in fails:
             f[1].setdefault("case", case_replay(case))
         tree.close()
+
+
+def spell_kind(sp, mods):
+    """coverage bucket of a type spelling"""
+    if sp.startswith("u."):
+        return "unsigned"
+    if sp in ("long", "short", "double", "float", "int", "string"):
+        return "builtin_" + sp
+    for i, m in enumerate(mods):
+        for st in m["stmts"]:
+            if st[2:3] == (sp,) and st[0] in ("T", "E"):
+                return ("typedef" if st[0] == "T" else "enum") + ("_exported" if st[1] else "_hidden")
+    return "other"
 
 
 def first_diff(a, b):
@@ -1020,6 +1321,11 @@ def make_clash_case(rng, k):
             if rng.random() < 0.5:
                 st.append(("V", True, "KH_" + nm, False, "@hs(1)"))
         rng.shuffle(st)
+        if rng.random() < 0.5:
+            # the clashing constants are spelled with a (hidden) typedef alias of the module: the identifier branch of the parser
+            tq = "Tq_" + nm
+            st = [("PV",) + x[1:5] + (tq, "num", False) if (x[0] == "V" and x[2].startswith("K") and x[3]) else x for x in st]
+            st.insert(0, ("T", False, tq, "int"))
         if nested and i > 0:
             tgt = names[i - 1] if rng.random() < 0.6 else names[0]
             st.insert(rng.randint(0, len(st)), ("I", tgt))          # the import stands anywhere among the declarations
@@ -1034,6 +1340,32 @@ def make_clash_case(rng, k):
         order.append(rng.choice(names))
     local = [simple_fn("same", 70, exported=False)] if rng.random() < 0.35 else []
     return {"kind": "clash", "files": files, "imports": order, "local": local, "cwd": "", "extra": {}, "seed_tag": ["clash", k]}
+
+
+def make_conflict_case(rng, k):
+    """impl blocks of SEVERAL modules (and of the importer itself) for one struct: register_impl_definition rejects a method
+    name that another impl block (another interface) of the struct already defines - 'Method name conflict' - and replaces a
+    block with the same (interface, struct) key; the model's find_conflict / replace_impl (EConflict)"""
+    files = [("cs.cb", [("S", True, "SS", False, [("x", None), ("y", None)])])]
+    pool = ["ma", "mb", "mc", "md", "me", "mf", "mg"] if rng.random() < 0.6 else ["ma", "mb", "mc"]
+    mods = ["ca", "cb", "cc"][:rng.randint(2, 3)]
+    for i, nm in enumerate(mods):
+        ms = rng.sample(pool, rng.randint(1, 2))
+        st = [("I", "cs"),
+              ("N", True, "I_" + nm, ms),
+              ("M", True, "I_" + nm, "SS", [(m, 100 * (i + 1) + j, []) for j, m in enumerate(ms)], [], None, [])]
+        if rng.random() < 0.3:
+            st.append(("M", True, None, "SS", [], [(1, 100 * (i + 1) + 9)], None, []))
+        files.append((nm + ".cb", st))
+    imports = [m for m in mods if rng.random() < 0.75] or [rng.choice(mods)]
+    rng.shuffle(imports)
+    if rng.random() < 0.3:
+        imports.append(rng.choice(imports))
+    local = []
+    if rng.random() < 0.4:
+        ms = rng.sample(pool, 1)
+        local = [("N", False, "I_loc", ms), ("M", False, "I_loc", "SS", [(ms[0], 990, [])], [], None, [])]
+    return {"kind": "conflict", "files": files, "imports": imports, "local": local, "cwd": "", "extra": {}, "seed_tag": ["conflict", k]}
 
 
 def selected_files(case):
@@ -1133,9 +1465,14 @@ def make_selective_case(rng, k):
           ("S", True, "S8", False, [("x", None), ("y", None)]),
           ("M", True, None, "S8", [], [(1, 28)], None, []),
           ("F", False, "hid9", 29, []),
-          ("V", True, "KZ", True, 30)]
-    deps = {"K2": ["K1"], "h4": ["K1"]}
-    names = ["K1", "K2", "w3", "h4", "f5", "E6", "T7", "S8", "KZ"]
+          ("V", True, "KZ", True, 30),
+          ("PV", True, "KT", True, 31, "T7", "num", False),              # spelled with the module's typedef alias / enum
+          ("PV", True, "KE", True, "#E6:EB", "E6", "num", False),
+          ("PV", True, "gu", False, "33+$KZ", "u.long", "num", False),
+          ("PF", True, "x9", 34, "a+34+$K1", "T7", "u.int", False),
+          ("PV", False, "hidk", True, 35, "T7", "num", False)]
+    deps = {"K2": ["K1"], "h4": ["K1"], "KE": ["E6"], "gu": ["KZ"], "x9": ["K1"]}
+    names = ["K1", "K2", "w3", "h4", "f5", "E6", "T7", "S8", "KZ", "KT", "KE", "gu", "x9"]
     items = [x for x in names if rng.random() < 0.45] or [rng.choice(names)]
     for x in list(items):
         for d in deps.get(x, []):
@@ -1143,7 +1480,7 @@ def make_selective_case(rng, k):
                 items.append(d)
     extra = []
     if rng.random() < 0.3:
-        extra.append("hid9")                    # naming something the module does not export binds nothing
+        extra.append(rng.choice(["hid9", "hidk"]))   # naming something the module does not export binds nothing
     if rng.random() < 0.2:
         extra.append("nosuch")
     listed = items + extra
@@ -1166,14 +1503,15 @@ def run_flat_case(impl, case, tab):
         imports_txt = case.get("import_text") or "\n".join("import %s;" % p for p in case["imports"])
         local_txt = "\n".join(render_stmt(s) for s in case.get("local", []))
         if not tab["ok"]:
-            rc, o, e = tree.run(impl, imports_txt + "\nvoid main() { println(1); }\n")
+            rc, o, e = tree.run(impl, imports_txt + "\n" + local_txt + "\nvoid main() { println(1); }\n")
             runs += 1
             want = model_error_text(tab["err"])
             if rc != 1 or want not in e or o.strip() != "":
                 fails.append(("corr-error", {"model": tab["err"], "rc": rc, "stdout": o[-200:], "stderr": e[-400:], "case": case_replay_flat(case)},
                               "model predicts '%s', implementation: rc=%d %s" % (want, rc, first_err(e) or o[-80:]), False))
             return {"runs": runs, "failures": fails, "bindings": 1, "negatives": 0, "variants": 0}
-        main_text, exp = build_main(tab, single, blind=any(p.startswith(BLIND) for p, _ in case["files"]))
+        classes = {st[2]: var_cls(st) for _, sts in case["files"] for st in sts if is_var(st)}
+        main_text, exp = build_main(tab, single, blind=any(p.startswith(BLIND) for p, _ in case["files"]), classes=classes)
         rc, o, e = tree.run(impl, imports_txt + "\n" + local_txt + "\n" + main_text)
         runs += 1
         if rc != 0:
@@ -1183,6 +1521,13 @@ def run_flat_case(impl, case, tab):
             for idx, what, want, got in check_expectations(o, exp)[:3]:
                 fails.append(("corr-binding", {"what": what, "model": want, "impl": got, "case": case_replay_flat(case)},
                               "%s: model says %s, implementation shows %s" % (what, want, got), False))
+        if rc == 0 and case["kind"] in ("clash", "selective"):
+            n_, fl_ = run_assignment_probes(tree, impl, imports_txt + "\n",
+                                            assignment_probes(tab, classes, rng_for(0, "c18-assign", *[str(x) for x in case["seed_tag"]]), 2))
+            runs += n_
+            for f_ in fl_:
+                f_[1]["case"] = case_replay_flat(case)
+            fails += fl_
         neg = negative_probes(case["files"], tab, single)
         for what, stmt in neg:
             rc, o, e = tree.run(impl, imports_txt + '\nvoid main() { println("start"); %s }\n' % stmt)
@@ -1204,6 +1549,215 @@ def case_replay_flat(case):
     return {"kind": case["kind"], "files": case["files"], "imports": case["imports"], "local": case.get("local", []),
             "cwd": case.get("cwd", ""), "extra": case.get("extra"), "seed_tag": case.get("seed_tag"),
             "import_text": case.get("import_text"), "select": case.get("select")}
+
+
+# ------------------------------------------------------------------ kind x type-spelling matrix (oracle only)
+# Every cell is one exported item: (label, type providers needed, declaration lines with the placeholders
+# EXPORT / N (a suffix unique to the case) / V (a number), statements of the importer that use it, flags).
+# Flags: "x" the item may live in another module than the type providers (the module's parser then knows struct / enum /
+# interface names from the parse-time import only, typedef aliases not at all); "h" also with HIDDEN type providers.
+# The oracle: importing program == single-file program; the same item without `export` cannot be named.
+KIND_PROVIDERS = {
+    "Ms": "typedef int MsN;", "Tk": "typedef MsN TkN;", "Lb": "typedef string LbN;", "Ll": "typedef long LlN;",
+    "Lv": "enum LvN { LoN = 1, MidN = 5, HiN = 9 };", "Pt": "struct PtN { int x; int y; };",
+    "Bx": "struct BxN<T> { T v; };", "P2": "typedef PtN P2N;", "L2": "typedef LvN L2N;",
+    "A3": "typedef int[3] A3N;", "Opt": "enum OptN<T> { Some(T), None };",
+    "Sh": "interface ShN { int area(int d); };\nimpl ShN for PtN { int area(int d) { return self.x * d; } }",
+}
+PROVIDER_DEPS = {"Tk": ["Ms"], "P2": ["Pt"], "L2": ["Lv"], "Sh": ["Pt"]}
+KIND_CELLS = [
+    ("const long", [], "EXPORT const long kN = 30000000V;", "println(kN);", "xh"),
+    ("short global", [], "EXPORT short gN = 3V;", "println(gN); gN = gN + 1; println(gN);", "xh"),
+    ("tiny global", [], "EXPORT tiny gN = 1V;", "println(gN);", "xh"),
+    ("const bool", [], "EXPORT const bool kN = true;", "println(kN);", "xh"),
+    ("bool global", [], "EXPORT bool gN = true;", "println(gN); gN = false; println(gN);", "xh"),
+    ("const char", [], "EXPORT const char kN = 'x';", "println(kN);", "xh"),
+    ("const unsigned int", [], "EXPORT const unsigned int kN = 7V;", "println(kN);", "xh"),
+    ("unsigned long global", [], "EXPORT unsigned long gN = 7V;", "println(gN); gN = gN + 5; println(gN);", "xh"),
+    ("const string", [], 'EXPORT const string kN = "abV";', "println(kN);", "xh"),
+    ("string global", [], 'EXPORT string gN = "abV";', 'println(gN); gN = "cd"; println(gN);', "xh"),
+    ("const float", [], "EXPORT const float kN = V.5;", "println(kN);", "xh"),
+    ("double global", [], "EXPORT double gN = V.25;", "println(gN);", "xh"),
+    ("const quad", [], "EXPORT const quad kN = V.5;", "println(kN);", "xh"),
+    ("const big", [], "EXPORT const big kN = 25V;", "println(kN);", "xh"),
+    ("long global", [], "EXPORT long gN = 500000000V;", "println(gN); gN = gN + 1; println(gN);", "xh"),
+    ("const typedef alias", ["Ms"], "EXPORT const MsN kN = 25V;", "println(kN);", "xh"),
+    ("typedef alias global", ["Ms"], "EXPORT MsN gN = 7V;", "println(gN); gN = gN + 1; println(gN);", "xh"),
+    ("typedef alias global, no initialiser", ["Ms"], "EXPORT MsN gN;", "println(gN); gN = gN + V; println(gN);", "xh"),
+    ("const typedef of typedef", ["Tk"], "EXPORT const TkN kN = 9V;", "println(kN);", "xh"),
+    ("const typedef of long", ["Ll"], "EXPORT const LlN kN = 40000000V;", "println(kN);", "xh"),
+    ("const typedef of string", ["Lb"], 'EXPORT const LbN kN = "lbV";', "println(kN);", "h"),
+    ("typedef of string global", ["Lb"], 'EXPORT LbN gN = "lbV";', "println(gN);", "h"),
+    ("const enum", ["Lv"], "EXPORT const LvN kN = LvN::MidN;", "println(kN);", "x"),
+    ("enum global", ["Lv"], "EXPORT LvN gN = LvN::HiN;", "println(gN); gN = LvN::LoN; println(gN);", "x"),
+    ("enum global, no initialiser", ["Lv"], "EXPORT LvN gN;", "println(gN);", "xh"),
+    ("const typedef of enum", ["L2"], "EXPORT const L2N kN = LvN::MidN;", "println(kN);", "x"),
+    ("pointer global", [], "EXPORT int tN = 4V;\nEXPORT int* pN = &tN;", "println(*pN);", "xh"),
+    ("const pointer global", [], "EXPORT int tN = 4V;\nEXPORT const int* pN = &tN;", "println(*pN);", "xh"),
+    ("constant read through a function", ["Ms"], "EXPORT const MsN kN = 25V;\nEXPORT int getN() { return kN + 1; }", "println(getN());", "xh"),
+    ("enum constant read through a function", ["Lv"], "EXPORT const LvN kN = LvN::MidN;\nEXPORT int getN() { return kN + 1; }", "println(getN());", "x"),
+    ("global changed through a function", ["Ms"], "EXPORT MsN gN = V;\nEXPORT int bumpN() { gN = gN + 1; return gN; }",
+     "println(bumpN()); println(bumpN()); println(gN);", "xh"),
+    ("function of typedef alias", ["Ms"], "EXPORT MsN fN(MsN v) { return v * 2 + V; }", "println(fN(4));", "xh"),
+    ("function of typedef of typedef", ["Tk"], "EXPORT TkN fN(TkN v) { return v * 2 + V; }", "println(fN(4));", "xh"),
+    ("function returning enum", ["Lv"], "EXPORT LvN fN(int v) { return LvN::HiN; }", "println(fN(V));", "x"),
+    ("function taking enum", ["Lv"], "EXPORT int fN(LvN v) { return v * 2 + V; }", "println(fN(LvN::MidN));", "x"),
+    ("function returning struct", ["Pt"], "EXPORT PtN fN(int a) { PtN p; p.x = a; p.y = V; return p; }", "PtN qN = fN(4); println(qN.x, qN.y);", "x"),
+    ("function taking struct", ["Pt"], "EXPORT int fN(PtN p) { return p.x + V; }", "PtN qN; qN.x = 5; println(fN(qN));", "x"),
+    ("function taking struct reference", ["Pt"], "EXPORT void fN(PtN& p, int v) { p.x = v + V; }", "PtN qN; qN.x = 1; fN(qN, 5); println(qN.x);", "x"),
+    ("function taking struct pointer", ["Pt"], "EXPORT int fN(PtN* p) { return p->x + V; }", "PtN qN; qN.x = 7; println(fN(&qN));", "x"),
+    ("function taking typedef of struct", ["P2"], "EXPORT int fN(P2N v) { return v.x + V; }", "P2N qN; qN.x = 3; println(fN(qN));", "x"),
+    ("function of unsigned", [], "EXPORT unsigned int fN(unsigned int a) { return a + V; }", "println(fN(4));", "xh"),
+    ("function of long", [], "EXPORT long fN(long a) { return a + 300000000V; }", "println(fN(4));", "xh"),
+    ("function of string", [], 'EXPORT string fN(string a) { return a; }', 'println(fN("qV"));', "xh"),
+    ("function of typedef of string", ["Lb"], 'EXPORT LbN fN(LbN a) { return a; }', 'println(fN("qV"));', "h"),   # not "x": finding C18-typedef-of-string-from-imported-module
+    ("void function", [], "EXPORT void fN(int a) { println(a + V); }", "fN(4);", "xh"),
+    ("function returning array", [], "EXPORT int[3] fN(int a) { int[3] r = [a, V, a]; return r; }", "int[3] qN = fN(4); println(qN[1]);", "xh"),
+    ("function returning pointer", [], "EXPORT int tN = 4V;\nEXPORT int* fN(int a) { return &tN; }", "int* qN = fN(4); println(*qN);", "xh"),
+    ("function taking int reference", [], "EXPORT void fN(int& p, int v) { p = v + V; }", "int qN = 1; fN(qN, 5); println(qN);", "xh"),
+    ("function returning generic struct", ["Bx"], "EXPORT BxN<int> fN(int a) { BxN<int> b; b.v = a + V; return b; }", "BxN<int> qN = fN(4); println(qN.v);", "x"),
+    ("function taking generic struct", ["Bx"], "EXPORT int fN(BxN<int> b) { return b.v + V; }", "BxN<int> qN; qN.v = 6; println(fN(qN));", "x"),
+    ("generic function", [], "EXPORT T fN<T>(T a) { return a; }", "println(fN<int>(V));", "xh"),
+    ("generic function of generic struct", ["Bx"], "EXPORT BxN<T> fN<T>(T a) { BxN<T> b; b.v = a; return b; }", "BxN<int> qN = fN<int>(V); println(qN.v);", "x"),
+    ("function returning bool", [], "EXPORT bool fN(int a) { return a > V; }", "println(fN(4));", "xh"),
+    ("function returning double", [], "EXPORT double fN(int a) { return V.5; }", "println(fN(4));", "xh"),
+    ("function returning char", [], "EXPORT char fN(int a) { return 'c'; }", "println(fN(4));", "xh"),
+    ("const-qualified return", [], "EXPORT const int fN(int a) { return a + V; }", "println(fN(4));", "xh"),
+    ("async function", [], "EXPORT async int fN(int a) { return a + V; }", "println(await fN(4));", "xh"),
+    ("async function of typedef alias", ["Ms"], "EXPORT async MsN fN(int a) { return a + V; }", "println(await fN(4));", "xh"),
+    ("function pointer to an export", [], "EXPORT int fN(int a) { return a + V; }", "int* qN = &fN; println(qN(4));", "xh"),
+    ("generic enum and its constructor function", ["Opt"], "EXPORT OptN<int> fN(int a) { return OptN<int>::Some(a + V); }", "OptN<int> qN = fN(4); println(qN.value);", "x"),
+    ("parameterless function of typedef alias", ["Ms"], "EXPORT MsN fN() { return 4V; }", "println(fN());", "xh"),
+    ("parameterless function returning struct", ["Pt"], "EXPORT PtN fN() { PtN p; p.x = V; p.y = 2; return p; }", "PtN qN = fN(); println(qN.x, qN.y);", "x"),
+    ("parameterless function returning enum", ["Lv"], "EXPORT LvN fN() { return LvN::MidN; }", "println(fN());", "x"),
+    ("function returning array of typedef alias", ["Ms"], "EXPORT MsN[3] fN(int a) { MsN[3] r = [a, V, a]; return r; }", "int[3] qN = fN(4); println(qN[1]);", "h"),     # not "x": an alias the module's parser does not know cannot carry `[3]`
+    ("generic function of typedef alias with interface bound", ["Ms", "Sh"], "EXPORT MsN fN<T: ShN>(T a) { return a.area(2) + V; }", "PtN qN; qN.x = 3; println(fN<PtN>(qN));", "x"),
+    ("generic function returning int", [], "EXPORT int fN<T>(T a) { return V; }", "println(fN<int>(4));", "xh"),
+    ("reference global", [], "EXPORT int tN = 4V;\nEXPORT int& gN = tN;", "println(gN);", "xh"),
+    ("const-pointer global", [], "EXPORT int tN = 4V;\nEXPORT int* const pN = &tN;", "println(*pN);", "xh"),
+    ("function taking interface", ["Sh"], "EXPORT int fN(ShN s) { return s.area(2) + V; }", "PtN qN; qN.x = 7; println(fN(qN));", "x"),
+    ("function returning interface", ["Sh"], "EXPORT ShN fN(int v) { PtN p; p.x = v + V; return p; }", "ShN qN = fN(3); println(qN.area(2));", "x"),
+    ("generic function with interface bound", ["Sh"], "EXPORT int fN<T: ShN>(T a) { return a.area(2) + V; }", "PtN qN; qN.x = 3; println(fN<PtN>(qN));", "x"),
+    # exported TYPES of the less common kinds (the hidden variant hides the type itself)
+    ("struct with default member", [], "EXPORT struct WN { default int v; int w; };", "WN qN; qN.v = V; println(qN.v);", "xh"),
+    ("struct of struct", [], "EXPORT struct InN { int x; };\nEXPORT struct OutN { InN i; int y; };", "OutN qN; qN.i.x = V; println(qN.i.x);", "xh"),
+    ("struct with string / pointer / long members", [], "EXPORT struct RecN { string s; int* p; long l; };",
+     'RecN qN; qN.s = "rV"; qN.l = 500000000V; println(qN.s, qN.l);', "xh"),
+    ("struct with private member", [], "EXPORT struct PvN { private int h; int x; };", "PvN qN; qN.x = V; println(qN.x);", "xh"),
+    ("enum without values", [], "EXPORT enum ClN { RdN, GnN, BlN };", "println(ClN::GnN, ClN::BlN);", "xh"),
+    ("enum with negative value", [], "EXPORT enum NgN { NaN = -3, NbN };", "println(NgN::NaN, NgN::NbN);", "xh"),
+    ("typedef struct", [], "EXPORT typedef struct { int x; } TsN;", "TsN qN; qN.x = V; println(qN.x);", "xh"),
+    ("typedef enum", [], "EXPORT typedef enum { QaN = 1, QbN = 2 } TeN;", "TeN qN = TeN::QbN; println(qN);", "xh"),
+    ("union typedef", [], "EXPORT typedef UnN = int | string;", "UnN qN = V; println(qN);", "xh"),
+    ("literal union typedef", [], "EXPORT typedef DrN = 1 | 2 | 3;", "DrN qN = 2; println(qN);", "xh"),
+    ("generic interface and impl", [], "EXPORT struct GbN<T> { T v; };\nEXPORT interface GgN<T> { T get(); };\nEXPORT impl GgN<T> for GbN<T> { T get() { return self.v; } }",
+     "GbN<int> qN; qN.v = V; println(qN.get());", "xhp"),
+    ("generic struct with constructor", [], "EXPORT struct GcN<T> { T v; };\nEXPORT impl GcN<T> { self(T a) { self.v = a; } }",
+     "GcN<int> qN(V); println(qN.v);", "xhp"),
+    # the type providers themselves (the cell exports nothing but uses the providers' names)
+    ("typedef of struct", ["P2"], "EXPORT const int kN = V;", "P2N qN; qN.x = 7; println(qN.x + kN);", "x"),
+    ("typedef of enum", ["L2"], "EXPORT const int kN = V;", "L2N qN = LvN::HiN; println(qN + kN);", "x"),
+    ("typedef of array", ["A3"], "EXPORT const int kN = V;", "A3N qN; qN[1] = 5; println(qN[1] + kN);", "x"),
+    ("generic enum", ["Opt"], "EXPORT const int kN = V;", "OptN<int> qN = OptN<int>::Some(4); println(qN.value + kN);", "x"),
+]
+
+
+def make_kinds_case(rng, k):
+    cells = rng.sample(range(len(KIND_CELLS)), rng.randint(2, 5))
+    if k < len(KIND_CELLS):
+        cells = [k] + [c for c in cells if c != k]                 # every cell at least once per run
+    split = (rng.random() < 0.5 and all("x" in KIND_CELLS[c][4] for c in cells)          # type providers in a module of their own
+             and any(KIND_CELLS[c][1] for c in cells))
+    hidden_types = (not split) and rng.random() < 0.3 and all("h" in KIND_CELLS[c][4] for c in cells)
+    return {"kind": "kinds", "cells": cells, "split": split, "hidden_types": hidden_types, "suffix": "q%d" % rng.randint(0, 99),
+            "value": rng.randint(1, 9), "both": rng.random() < 0.4, "late": rng.random() < 0.25, "dir": rng.choice(["", "pk.", "lib.x."]),
+            "seed_tag": ["kinds", k], "files": []}
+
+
+def kinds_texts(case):
+    """-> (files {path: text} with the exported and the hidden variant of the items module, import lines, inlined prelude, uses)"""
+    n, v = case["suffix"], str(case["value"])
+
+    def inst(t, idx=None):
+        if idx is not None:        # the cell's own names (kN gN fN tN pN getN bumpN qN) are unique to the cell
+            t = re.sub(r"\b(k|g|f|t|p|get|bump|q)N\b", lambda m_: "%s%s_%d" % (m_.group(1), n, idx), t)
+        return re.sub(r"(?<=[A-Za-z0-9])N\b", n, t).replace("V", v)
+    need = []
+    for c in case["cells"]:
+        for p_ in KIND_CELLS[c][1]:
+            for q_ in PROVIDER_DEPS.get(p_, []) + [p_]:
+                if q_ not in need:
+                    need.append(q_)
+    order = [p_ for p_ in KIND_PROVIDERS if p_ in need]                                    # dependency order of the table
+    prov = [l for p_ in order for l in inst(KIND_PROVIDERS[p_]).split("\n")]
+    exp = "" if case["hidden_types"] else "export "
+    decls = [inst(KIND_CELLS[c][2], c) for c in case["cells"]]
+    d = case["dir"]
+    tmod, imod, hmod = d + "kt" + n, d + "km" + n, d + "kh" + n
+    files = {}
+    head = []
+    if case["split"]:
+        files[file_path(tmod)] = "\n".join(exp + l for l in prov) + "\n"
+        head = ["import %s;" % tmod]
+    else:
+        head = [exp + l for l in prov]
+    files[file_path(imod)] = "\n".join(head + [x.replace("EXPORT", "export") for x in decls]) + "\n"
+    files[file_path(hmod)] = "\n".join(head + [x.replace("EXPORT ", "") for x in decls]) + "\n"
+    # `Bx<int> q;` / `Opt<int>::Some(4)` can only be WRITTEN by a file whose own parser has seen the generic definition
+    # (parse-time import of the providers' module): then the importer imports that module too
+    both = case["both"] or ("Bx" in need) or ("Opt" in need) or ("Sh" in need)       # (interface-typed variables alike)
+    imports = [imod] + ([tmod] if (case["split"] and both) else [])
+    if len(imports) > 1 and case["value"] % 2:
+        imports.reverse()
+    inlined = "\n".join(prov + [x.replace("EXPORT ", "") for x in decls]) + "\n"
+    uses = [inst(KIND_CELLS[c][3], c) for c in case["cells"]]
+    return files, imports, hmod, ([tmod] if case["split"] else []), inlined, uses
+
+
+def run_kinds_case(impl, case):
+    fails, runs = [], 0
+    files, imports, hmod, tmods, inlined, uses = kinds_texts(case)
+    tree = Tree(list(files.items()))
+    payload = {"case": {k_: case[k_] for k_ in ("kind", "cells", "split", "hidden_types", "suffix", "value", "both", "late", "dir", "seed_tag")},
+               "labels": [KIND_CELLS[c][0] for c in case["cells"]], "files": files}
+    try:
+        body = 'println("start");\n  ' + "\n  ".join(uses)
+        imps = "".join("import %s;\n" % m for m in imports)
+        if case["late"]:
+            prog = "void main() {\n  %s  %s\n}\n" % (imps.replace("\n", "\n  "), body)
+        else:
+            prog = imps + "void main() {\n  %s\n}\n" % body
+        rc, o, e = tree.run(impl, prog)
+        rci, oi, ei = tree.run(impl, inlined + "void main() {\n  %s\n}\n" % body)
+        runs += 2
+        if rci != 0:
+            fails.append(("corr-kinds-reference", dict(payload, rc=rci, stderr=ei[-400:], program=inlined),
+                          "kinds matrix: the single-file reference program itself fails (rc=%d %s): cells %s" % (
+                              rci, first_err(ei), payload["labels"]), False))
+        elif (rc, o) != (rci, oi):
+            fails.append(("oracle-kinds", dict(payload, rc_import=rc, rc_inlined=rci, stdout_diff=first_diff(oi, o), stderr_import=e[-500:],
+                                               program=prog),
+                          "exported items %s: the importing program (rc=%d %s) differs from the single-file program: %s" % (
+                              payload["labels"], rc, first_err(e), first_diff(oi, o)), True))
+        # the same items WITHOUT `export`: none of them can be named (type providers stay as they are)
+        for c, use in zip(case["cells"], uses):
+            if KIND_CELLS[c][2].count("EXPORT") == 1 and KIND_CELLS[c][2].startswith("EXPORT const int kN"):
+                continue                                           # provider cells: the constant is the only export
+            hp = "".join("import %s;\n" % m for m in [hmod] + tmods) + 'void main() {\n  println("start");\n  %s\n}\n' % use
+            rch, oh, eh = tree.run(impl, hp)
+            runs += 1
+            # ("p": a generic type that the importer's parser has never seen is rejected before main starts)
+            if not (rch == 1 and (oh.strip() == "start" or ("p" in KIND_CELLS[c][4] and oh.strip() == ""))):
+                reached = oh.startswith("start")
+                fails.append(("corr-hidden" if reached else "corr-probe",
+                              dict(payload, cell=KIND_CELLS[c][0], rc=rch, stdout=oh[-300:], stderr=eh[-300:], program=hp),
+                              ("item '%s' written WITHOUT export is usable by the importer (rc=%d, %r)" % (KIND_CELLS[c][0], rch, oh[-80:]))
+                              if reached else
+                              ("kinds matrix: probe for hidden '%s' did not reach main: rc=%d %s" % (KIND_CELLS[c][0], rch, first_err(eh))),
+                              reached))
+        return {"runs": runs, "failures": fails, "bindings": len(uses), "negatives": len(uses), "variants": 1}
+    finally:
+        tree.close()
 
 
 # ------------------------------------------------------------------ known findings
@@ -1263,6 +1817,10 @@ def build_cases(seed, tier):
     for nm, edges in shapes:
         for r in range(8 if tier == "quick" else 60):
             cases.append(make_graph_case(seed, nm, r, 4, edges, prefix=BLIND if r % 4 == 3 else ""))
+    # (1c) import cycles (fix 129a992)
+    for shape in CYCLE_SHAPES:
+        for r in range(6 if tier == "quick" else 60):
+            cases.append(make_cycle_case(seed, shape, r))
     # (2) defect shapes: table agreement only (the model is faithful to the defects), no oracle
     nd = 24 if tier == "quick" else 200
     for k in range(nd):
@@ -1294,9 +1852,15 @@ def build_cases(seed, tier):
     # (5) clashes: last import wins, the importer's own definition wins
     for k in range(80 if tier == "quick" else 800):
         cases.append(make_clash_case(rng_for(seed, "c18-clash", k), k))
+    # (5b) impl blocks of several modules for one struct: method name conflicts, same-key replacement
+    for k in range(40 if tier == "quick" else 400):
+        cases.append(make_conflict_case(rng_for(seed, "c18-conflict", k), k))
     # (7) initialisers with side effects: run once, dependencies first
     for k in range(24 if tier == "quick" else 300):
         cases.append(make_effects_case(rng_for(seed, "c18-effects", k), k))
+    # (8) kind x type-spelling matrix of exported items (oracle only): every cell once + random combinations
+    for k in range((len(KIND_CELLS) + 16) if tier == "quick" else 600):
+        cases.append(make_kinds_case(rng_for(seed, "c18-kinds", k), k))
     # (6) selective imports: exactly the listed exported names
     for k in range(30 if tier == "quick" else 400):
         cases.append(make_selective_case(rng_for(seed, "c18-selective", k), k))
@@ -1345,8 +1909,8 @@ def run(rep):
             if t:                                    # generator bug guard: never feed a defect shape to the oracle
                 c["oracle"] = False
                 c["tripped"] = t
-    effects = [c for c in cases if c["kind"] == "effects"]
-    cases = [c for c in cases if c["kind"] != "effects"]
+    effects = [c for c in cases if c["kind"] in ("effects", "kinds")]
+    cases = [c for c in cases if c["kind"] not in ("effects", "kinds")]
     tabs = run_model([lines_of(c) for c in cases])
 
     def one(ct):
@@ -1356,13 +1920,14 @@ def run(rep):
         return run_flat_case(impl, c, tab)
     results = common.pmap(one, list(zip(cases, tabs)))
     prog_results = [run_program_case(impl, c) for c in programs]
-    eff_results = common.pmap(lambda c: run_effects_case(impl, c), effects)
+    eff_results = common.pmap(lambda c: run_kinds_case(impl, c) if c["kind"] == "kinds" else run_effects_case(impl, c), effects)
 
     hist, runs, bindings, negs, variants = {}, 0, 0, 0, 0
     distinct, nontrivial = set(), 0
     allfails = []
     for c, tab, r in zip(cases, tabs, results):
-        key = c["kind"] if c["kind"] != "graph" else ("graph-defect-shape" if not c.get("oracle", True) else "graph-n%d" % c["n"])
+        key = c["kind"] if c["kind"] != "graph" else ("graph-defect-shape" if not c.get("oracle", True) else
+                                                      ("graph-cycle" if c.get("cycle") else "graph-n%d" % c["n"]))
         hist[key] = hist.get(key, 0) + 1
         runs += r["runs"]
         bindings += r["bindings"]
@@ -1376,7 +1941,9 @@ def run(rep):
                 nontrivial += 1
         allfails += [(c, f) for f in r["failures"]]
     for c, r in zip(effects, eff_results):
-        hist["effects"] = hist.get("effects", 0) + 1
+        hist[c["kind"]] = hist.get(c["kind"], 0) + 1
+        bindings += r["bindings"]
+        negs += r["negatives"]
         runs += r["runs"]
         variants += r["variants"]
         allfails += [(c, f) for f in r["failures"]]
@@ -1387,7 +1954,8 @@ def run(rep):
         allfails += [(c, f) for f in r["failures"]]
     feat = {"graph_cases_with_cross_module_initialiser": 0, "cross_module_initialisers": 0, "initialisers_with_call": 0,
             "initialisers_reading_transitively_loaded_module": 0, "cases_without_inlined_reference": 0,
-            "cases_program_imports_outer_module_only": 0, "string_variables": 0, "uninitialised_globals": 0}
+            "cases_program_imports_outer_module_only": 0, "string_variables": 0, "uninitialised_globals": 0,
+            "spelled_variables": 0, "spelled_hidden_variables": 0, "spelled_functions": 0}
     for c in cases:
         if c["kind"] != "graph":
             continue
@@ -1396,12 +1964,12 @@ def run(rep):
         owner = {}
         for i, m in enumerate(mods):
             for st in m["stmts"]:
-                if st[0] in ("V", "H", "E"):
+                if st[0] in ("V", "H", "E", "PV", "PF"):
                     owner[st[2]] = i
         cross = 0
         for i in loaded:
             for st in mods[i]["stmts"]:
-                if st[0] == "V" and st[1] and isinstance(st[4], str):
+                if is_var(st) and st[1] and isinstance(st[4], str):
                     names = [x.rsplit(".", 1)[-1] for x in expr_names(st[4], "$") + expr_names(st[4], "@")] + \
                             [x.split(":")[0] for x in expr_names(st[4].replace(":", "."), "#")]
                     others = [owner[x] for x in names if x in owner and owner[x] != i]
@@ -1411,9 +1979,16 @@ def run(rep):
                             feat["initialisers_reading_transitively_loaded_module"] += 1
                     if "@" in st[4]:
                         feat["initialisers_with_call"] += 1
-                if st[0] == "V" and len(st) > 5:
+                if is_var(st) and var_cls(st) == "str":
                     feat["string_variables"] += 1
-                if st[0] == "V" and st[1] and st[4] is None:
+                if st[0] == "PV":
+                    feat["spelled_variables"] += 1
+                    feat["spelled_" + spell_kind(st[5], mods)] = feat.get("spelled_" + spell_kind(st[5], mods), 0) + 1
+                    if not st[1]:
+                        feat["spelled_hidden_variables"] += 1
+                if st[0] == "PF":
+                    feat["spelled_functions"] += 1
+                if is_var(st) and st[1] and st[4] is None:
                     feat["uninitialised_globals"] += 1
         feat["cross_module_initialisers"] += cross
         feat["graph_cases_with_cross_module_initialiser"] += 1 if cross else 0
@@ -1432,7 +2007,9 @@ def run(rep):
                 "permutations == duplicated import lists == import lists extended by the modules loaded anyway == inlined single file "
                 "(unless a known single-file defect shape is present: coverage.features.cases_without_inlined_reference) == re-import "
                 "at run time. Clash cases: modules importing each other export the same names, the import statement anywhere among "
-                "the declarations. Selective cases: import m { items } binds exactly the listed exports",
+                "the declarations. Selective cases: import m { items } binds exactly the listed exports. Kinds cases (KIND_CELLS): 2-5 exported "
+                "items of different kind x type spelling per module (each cell at least once per run), importing program == single-file "
+                "program, one hidden-variant probe per cell. Assignment probes: up to 3 imported variables per case, verdict of Model.assign",
         "exhaustive": True,
         "exhaustive_space": "all import DAGs (module i imports j<i) over n<=%d modules: %s graphs; all permutations of each import list%s; "
                             "search path: %s subsets of the 8 candidate locations" % (
@@ -1475,7 +2052,9 @@ def run(rep):
         "definition identities (AST nodes) are abstract numbers printed by the generated bodies; initialiser values are numbers "
         "(int) or the text s<number> (string)",
         "selective imports reach the model by translation (the unlisted exports lose `export` in the model's file system); module "
-        "aliases, double/array exports are findings, not generated",
+        "aliases, array / struct-typed / multi-variable exports are findings, not generated",
+        "every generated file reaches the loader model through the extracted front-end model Front.parse_fs (items with spelled types: "
+        "PV / PF lines); the kind x spelling matrix (KIND_CELLS) and the assignment probes are tested only",
     ]
 
 
@@ -1486,6 +2065,12 @@ def replay(path):
         r = run_program_case(common.build_impl("plain"), c)
         for f in r["failures"]:
             print("FAIL", f[0], f[2])
+        return 1 if r["failures"] else 0
+    if c and c.get("kind") == "kinds":
+        r = run_kinds_case(common.build_impl("plain"), c)
+        for f in r["failures"]:
+            print("FAIL", f[0], f[2])
+        print("runs:", r["runs"], "failures:", len(r["failures"]))
         return 1 if r["failures"] else 0
     if c and c.get("kind") == "effects":
         r = run_effects_case(common.build_impl("plain"), c)
